@@ -398,7 +398,8 @@ func canonicalTreeMode(mode filemode.FileMode) filemode.FileMode {
 	case 0o040000:
 		return filemode.Dir
 	case 0o100000:
-		if mode&0o111 != 0 {
+		// canonical Git (canon_mode) looks at the owner-execute bit only.
+		if mode&0o100 != 0 {
 			return filemode.Executable
 		}
 		return filemode.Regular
